@@ -14,7 +14,7 @@ STEP_RULES = [
     (r'new_number\(ASL_ATOF\(_buffer\)\);', 'new_value();', None), (r'new_number\(myatoiz\(_buffer\)\);', '{ g_int_digits = g_buflen; VF_MYATOIZ_PRE(); new_value(); }', None),
     (r'new_string\(_buffer\);', '{ g_string_done = 1; new_value(); }', None), (r'new_property\(_buffer\);', '{ g_key_done = 1; new_property(); }', None),
     (r'new_bool\([^;]*\);', 'new_value();', None), (r'put\(Var::NUL\);', 'new_value();', None), (r'begin_object\(_buffer\);', 'begin_object();', None),
-    (r'_buffer\s*=\s*"";', 'BUF_CLEAR();', None), (r'_buffer << ch;', 'BUF_APPEND_STR(ch);', None), (r"_buffer << '(\\?.)';", r"BUF_APPEND('\1');", None), (r'_buffer << c;', 'BUF_APPEND(c);', None),
+    (r'_buffer\s*=\s*"";', 'BUF_CLEAR();', None), (r'_buffer\.fix\(0\);', 'BUF_FIX0();', None), (r'_buffer\.clear\(\);', 'BUF_CLEAR();', None), (r'_buffer << ch;', 'BUF_APPEND_STR(ch);', None), (r"_buffer << '(\\?.)';", r"BUF_APPEND('\1');", None), (r'_buffer << c;', 'BUF_APPEND(c);', None),
     (r'_buffer\s*==\s*("[^"]*")', r'BUF_EQ(\1)', None), (r"_buffer != '-'", "!(g_buflen == 1 && g_buf[0] == '-')", None),
     (r'_buffer\[(\d)\]', r'BUF_AT(\1)', None), (r'_buffer\.length\(\)', 'g_buflen', None),
     (r'\(wchar_t\)strtoul\(unicode, NULL, 16\)', '(wchar_t)vf_hex4(unicode)', None),
@@ -71,18 +71,19 @@ static void XdlParser_step(XdlParser* self, char c) @@step@@
    && ((self)->_state == WAIT_SEP ==> EC != ROOT) && ((self)->_state == WAIT_COMMA_OR_VALUE ==> EC == ARRAY) && ((self)->_state == WAIT_OBJ ==> true) \
    && ((self)->_state == INT ==> (g_buflen >= 1 && (g_buf[0] == '-' ==> g_buflen >= 2))) \
    && ((self)->_inComment == IS_CMT(g_c0)) && VALID_STATE((self)->_state) && VALID_STATE((self)->_prevState) \
-   && (self)->_unicodeCount >= 0 && (self)->_unicodeCount < 8 && g_buflen >= 0 )
+   && (self)->_unicodeCount >= 0 && (self)->_unicodeCount < 8 && g_buflen >= 0 \
+   && (g_buflen < VF_BUFCAP ==> g_buf[g_buflen] == 0) )      /* _buffer is a String: its NUL sits at its length (begin_object / new_string read it as a C string) */
 '''
 
 step_safety = Unit(
     'XdlParser_step_any_byte', 'C06',
     cuts=parser_cuts(),
     text=PARSER_C + r'''
-int g_cm0, g_cd0; State g_state0;   /* entry values: number of comment markers on top of the context stack, depth, state */
+int g_cm0, g_cd0; State g_state0, g_prev0;   /* entry values: number of comment markers on top of the context stack, depth, state */
 #define CMT_COUNT(x) (IS_CMT(x) ? ((x) == ENDCOMMENT ? 2 : 1) : 0)
 void vf_step(XdlParser* self, char c)
 __CPROVER_requires(__CPROVER_is_fresh(self, sizeof(XdlParser)) && c != 0 && INV(self))
-__CPROVER_requires(g_state0 == self->_state && g_pushback == 0 && g_lists_pushed == 0 && g_lists_popped == 0 && g_buflen < 1000000 && g_cm0 == CMT_COUNT(g_c0) && g_cd0 == g_cd && g_cd <= 1000000 && 0 <= g_values && g_values <= 1000000 && 0 <= g_props_pushed && g_props_pushed <= 1000000)
+__CPROVER_requires(g_state0 == self->_state && g_prev0 == self->_prevState && g_pushback == 0 && g_lists_pushed == 0 && g_lists_popped == 0 && g_buflen < 1000000 && g_cm0 == CMT_COUNT(g_c0) && g_cd0 == g_cd && g_cd <= 1000000 && 0 <= g_values && g_values <= 1000000 && 0 <= g_props_pushed && g_props_pushed <= 1000000)
 /* for ANY byte in ANY reachable parser configuration: no stack underflow, no out-of-range index (checked inside), the invariant is re-established,
    a character is pushed back at most once and only into a state that consumes it, container opens/closes are paired with value-list pushes/pops */
 __CPROVER_ensures(INV(self))
@@ -93,6 +94,8 @@ __CPROVER_ensures((g_cd - CMT_COUNT(g_c0)) - (g_cd0 - g_cm0) == g_lists_pushed -
    (so each input character closes at most one container); a string is left only at its closing quote (or into an escape / the error state) */
 __CPROVER_ensures((g_cd - CMT_COUNT(g_c0)) < (g_cd0 - g_cm0) ==> ((c == ']' || c == '}') && (g_cd - CMT_COUNT(g_c0)) == (g_cd0 - g_cm0) - 1 && g_pushback == 0))
 __CPROVER_ensures((g_state0 == STRING && c != '"') ==> (self->_state == STRING || self->_state == ESCAPE || self->_state == ERR))
+/* an escape sequence (\\x or \\uXXXX), once complete, goes back to the state it was met in: a string value stays a value, a quoted member name stays a name */
+__CPROVER_ensures(((g_state0 == ESCAPE || g_state0 == UNICODECHAR) && self->_state != ESCAPE && self->_state != UNICODECHAR && self->_state != ERR) ==> self->_state == g_prev0)
 __CPROVER_assigns(*self, g_c0, g_c1, g_c2, g_cd, g_buf, g_buflen, g_lists_pushed, g_lists_popped, g_props_pushed, g_values, g_pushback, g_int_digits, g_string_done, g_key_done)
 { XdlParser_step(self, c); }
 void vf_harness(void) { XdlParser* p; char c; vf_step(p, c); VF_CANARY(); }
